@@ -203,24 +203,42 @@ fn pair(d: &mut Draw) -> ([f64; 4], [f64; 4], &'static str) {
     }
 }
 
+/// the tolerances of the validity predicate for one float type
+#[derive(Copy, Clone)]
+struct Tol {
+    eps: f64,
+    unit: f64,
+    end: f64,
+    tiny_omega: f64,
+    abs: f64,
+    plane: f64,
+    exact_speed: f64,
+    close_speed: f64,
+    band: f64,
+    tie: f64,
+}
+const TOL64: Tol = Tol { eps: f64::EPSILON, unit: 1e-12, end: 1e-12, tiny_omega: 1e-6, abs: 1e-12, plane: 1e-10, exact_speed: 1e-9, close_speed: 1e-5, band: 1e-9, tie: 1e-12 };
+/// f32: results are unit and hit the endpoints to a few f32 ulps; angles are known to eps32/Omega
+const TOL32: Tol = Tol { eps: f32::EPSILON as f64, unit: 2e-6, end: 2e-6, tiny_omega: 2e-3, abs: 2e-6, plane: 4e-6, exact_speed: 2e-5, close_speed: 3e-5, band: 1e-6, tie: 1e-6 };
+
 /// validity predicate for one choice of the target b'
-fn check_against(r: &[f64; 4], a: &[f64; 4], bp: &[f64; 4], t: f64, slerp: bool, raw_dot: f64, who: &str) -> Result<(), (&'static str, String)> {
+fn check_against(r: &[f64; 4], a: &[f64; 4], bp: &[f64; 4], t: f64, slerp: bool, raw_dot: f64, who: &str, tl: &Tol) -> Result<(), (&'static str, String)> {
     let nr = norm4(r);
-    if (nr - 1.0).abs() > 1e-12 {
+    if (nr - 1.0).abs() > tl.unit {
         return Err(("not-unit", format!("{}: |r| = {}", who, nr)));
     }
     let diff = comb4(a, 1.0, bp, -1.0);
     let sum = comb4(a, 1.0, bp, 1.0);
     let omega = 2.0 * norm4(&diff).atan2(norm4(&sum));
-    if t == 0.0 && norm4(&comb4(r, 1.0, a, -1.0)) > 1e-12 {
+    if t == 0.0 && norm4(&comb4(r, 1.0, a, -1.0)) > tl.end {
         return Err(("t0-not-a", format!("{}: t = 0 gives {:?}, expected a = {:?}", who, r, a)));
     }
-    if t == 1.0 && norm4(&comb4(r, 1.0, bp, -1.0)) > 1e-12 {
+    if t == 1.0 && norm4(&comb4(r, 1.0, bp, -1.0)) > tl.end {
         return Err(("t1-not-b", format!("{}: t = 1 gives {:?}, expected +-b = {:?}", who, r, bp)));
     }
-    if omega < 1e-6 {
+    if omega < tl.tiny_omega {
         let e = norm4(&comb4(r, 1.0, a, -1.0));
-        if e > omega + 1e-12 {
+        if e > omega + tl.abs {
             return Err(("off-arc", format!("{}: inputs {:e} rad apart but result is {:e} from a", who, omega, e)));
         }
         return Ok(());
@@ -231,20 +249,21 @@ fn check_against(r: &[f64; 4], a: &[f64; 4], bp: &[f64; 4], t: f64, slerp: bool,
     let (x, y) = (dot4(r, a), dot4(r, &e2));
     let resid = norm4(&comb4(&comb4(r, 1.0, a, -x), 1.0, &e2, -y));
     // the frame vector e2 is known to eps/Omega only
-    let slack = 1e-12 + 16.0 * f64::EPSILON / omega;
-    if resid > 1e-10 + slack {
+    let slack = tl.abs + 16.0 * tl.eps / omega;
+    if resid > tl.plane + slack {
         return Err(("off-plane", format!("{}: result leaves the plane of a and b by {:e}", who, resid)));
     }
     let phi = y.atan2(x);
-    if phi < -1e-10 - slack || phi > omega + 1e-10 + slack {
+    if phi < -tl.plane - slack || phi > omega + tl.plane + slack {
         return Err(("off-arc", format!("{}: result at angle {:e} from a, outside the shorter arc [0, {:e}]", who, phi, omega)));
     }
     if slerp {
         let close = raw_dot.abs() > 0.9995;
         // the dot product is known exactly when at most one product a_i b_i is non-zero
         let exact_dot = (0..4).filter(|&i| a[i] * bp[i] != 0.0).count() <= 1;
-        let band = (raw_dot.abs() - 0.9995).abs() <= 1e-9 && !exact_dot;
-        let tol = if close || band { 1e-5 } else { 1e-9 };
+        let band = (raw_dot.abs() - 0.9995).abs() <= tl.band && !exact_dot;
+        // (the measured angles themselves are known to eps/Omega only)
+        let tol = if close || band { tl.close_speed } else { tl.exact_speed } + slack;
         let e1 = (phi - t * omega).abs();
         if e1 > tol {
             return Err(("not-constant-speed", format!("{}: arc from a is {:e}, expected t*Omega = {:e} (error {:e}, tolerance {:e}, |a.b| = {})", who, phi, t * omega, e1, tol, raw_dot.abs())));
@@ -291,7 +310,7 @@ fn interp_f64(d: &mut Draw) -> Outcome {
         let mut last = None;
         let mut ok = false;
         for bp in &targets {
-            match check_against(&rr, &a, bp, t, slerp, raw, who) {
+            match check_against(&rr, &a, bp, t, slerp, raw, who, &TOL64) {
                 Ok(()) => {
                     ok = true;
                     break;
@@ -317,6 +336,61 @@ fn interp_f64(d: &mut Draw) -> Outcome {
     pass(c, true)
 }
 
+
+/// the same predicate for Quaternion<f32>: inputs are the f64 pairs rounded to f32 (unit to an f32 ulp), results are
+/// widened exactly to f64 for the geometry
+fn interp_f32(d: &mut Draw) -> Outcome {
+    let (a0, b0, cls) = pair(d);
+    let t = match d.int(0, 5) {
+        0 => 0.0f32,
+        1 => 1.0f32,
+        _ => d.unit() as f32,
+    };
+    let af: [f32; 4] = [a0[0] as f32, a0[1] as f32, a0[2] as f32, a0[3] as f32];
+    let bf: [f32; 4] = [b0[0] as f32, b0[1] as f32, b0[2] as f32, b0[3] as f32];
+    let a: [f64; 4] = [af[0] as f64, af[1] as f64, af[2] as f64, af[3] as f64];
+    let b: [f64; 4] = [bf[0] as f64, bf[1] as f64, bf[2] as f64, bf[3] as f64];
+    d.note("a", &af);
+    d.note("b", &bf);
+    d.note("class, t", &(cls, t));
+    // the dot product as f32 arithmetic sees it decides the arc; ties within its rounding accept either
+    let raw = dot4(&a, &b);
+    d.note("a.b", &raw);
+    let (qa, qb) = (Quaternion::new(af[0], af[1], af[2], af[3]), Quaternion::new(bf[0], bf[1], bf[2], bf[3]));
+    let neg = [-b[0], -b[1], -b[2], -b[3]];
+    let structurally_zero = (0..4).all(|i| a[i] * b[i] == 0.0);
+    let targets: Vec<[f64; 4]> = if structurally_zero { vec![b] } else if raw.abs() <= TOL32.tie { vec![b, neg] } else if raw >= 0.0 { vec![b] } else { vec![neg] };
+    for (slerp, who) in [(false, "nlerp-f32"), (true, "slerp-f32")] {
+        let r: Quaternion<f32> = if slerp { qa.slerp(qb, t) } else { qa.nlerp(qb, t) };
+        let rr: [f64; 4] = [r.s as f64, r.v.x as f64, r.v.y as f64, r.v.z as f64];
+        if d.recording() {
+            d.note(who, &rr);
+        }
+        ensure!(rr.iter().all(|c| c.is_finite()), "non-finite", "{} returned {:?}", who, rr);
+        let mut last = None;
+        let mut ok = false;
+        for bp in &targets {
+            match check_against(&rr, &a, bp, t as f64, slerp, raw, who, &TOL32) {
+                Ok(()) => {
+                    ok = true;
+                    break;
+                }
+                Err(e) => last = Some(e),
+            }
+        }
+        if !ok {
+            let (sig, msg) = last.unwrap();
+            return Outcome::Fail { sig, msg };
+        }
+    }
+    let c: &'static str = match cls {
+        "generic" => if raw < 0.0 { "generic-" } else { "generic+" },
+        "hand-over" => if raw < 0.0 { "hand-over-" } else { "hand-over+" },
+        c => c,
+    };
+    pass(c, true)
+}
+
 pub fn property() -> Property {
     let mut s = Vec::new();
     macro_rules! add {
@@ -334,6 +408,9 @@ pub fn property() -> Property {
     add!("nlerp_slerp-f64", "f64", interp_f64, 20000, 1_000_000, 80,
         &[("generic+", 50), ("generic-", 50), ("generic-endpoint", 30), ("nearly-parallel", 30), ("nearly-opposite", 30), ("hand-over+", 50), ("hand-over-", 50), ("orthogonal", 30), ("orthogonal-disjoint-support", 30), ("hand-over-exactly-at-threshold", 20), ("equal", 15), ("exactly-opposite", 15)],
         "every generated pair; all pair classes, both signs of a.b and both endpoints required");
+    add!("nlerp_slerp-f32", "f32", interp_f32, 20000, 1_000_000, 80,
+        &[("generic+", 50), ("generic-", 50), ("nearly-parallel", 30), ("nearly-opposite", 30), ("hand-over+", 50), ("hand-over-", 50), ("orthogonal", 30)],
+        "every generated pair (the f64 pair classes rounded to f32)");
     Property {
         id: "C14",
         title: "lerp, nlerp and slerp interpolate with exact endpoints along the shortest path",
